@@ -68,17 +68,18 @@ Val(rs, k, p) ==
    input than in the fragments; extra = some item occurs more often in the
    fragments (duplicated or foreign).  When the input items are pairwise
    distinct (the usual case) plain sets decide it.                           *)
-Cmp(rpc, frags, k) ==
-    LET PI == Pos(<<rpc>>, k)      PO == Pos(frags, k)
-        SI == {Val(<<rpc>>, k, p) : p \in PI}
-        SO == {Val(frags, k, p) : p \in PO}
+CmpL(ins, outs, k) ==
+    LET PI == Pos(ins, k)      PO == Pos(outs, k)
+        SI == {Val(ins, k, p) : p \in PI}
+        SO == {Val(outs, k, p) : p \in PO}
     IN IF Cardinality(SI) = Cardinality(PI)
          THEN [lost  |-> ~(SI \subseteq SO),
                extra |-> ~(SO \subseteq SI) \/ Cardinality(PO) > Cardinality(SO)]
-         ELSE LET CI(x) == Cardinality({p \in PI : Val(<<rpc>>, k, p) = x})
-                  CO(x) == Cardinality({p \in PO : Val(frags, k, p) = x})
+         ELSE LET CI(x) == Cardinality({p \in PI : Val(ins, k, p) = x})
+                  CO(x) == Cardinality({p \in PO : Val(outs, k, p) = x})
               IN [lost  |-> \E x \in SI : CI(x) > CO(x),
                   extra |-> \E x \in SO : CO(x) > CI(x)]
+Cmp(rpc, frags, k) == CmpL(<<rpc>>, frags, k)
 
 (* the fragments' publish lists, concatenated, are the input's publish list *)
 PubInOrder(rpc, frags) ==
@@ -106,40 +107,59 @@ ValidSplitSz(rpc, limit, frags, sizes) ==
     /\ Holds(Verdict(rpc, limit, frags, sizes))
 
 -----------------------------------------------------------------------------
-(* The same property one level up, at GossipSubRouter.sendRPC: what is QUEUED
-   for the wire.  "alone" has the layout of an RPC and gives, for every element
-   of the input, the size of an RPC carrying just that element.
+(* The same property one level up, at GossipSubRouter.sendRPC.  Observed per
+   call: the RPCs QUEUED for the wire (with their sizes), the drop REPORTS -
+   "rep": the content of every RPC handed to RawTracer.DropRPC, read inside the
+   callback, with its size; "evt": the meta of the DROP_RPC trace events, which
+   can name IHAVE/IWANT/IDONTWANT ids and count the rest - the control message
+   kept for a RETRY, and the capacity of the peer's queue (cap < 0: unbounded).
+
+     * conservation: per kind, queued (+) reported-dropped = original as
+       multisets - nothing is dropped silently, nothing appears twice or from
+       nowhere;
      * gossipsub never queues an RPC larger than the limit, nor an empty one;
-     * nothing is queued twice and nothing foreign is queued;
-     * an element may be missing from the queue only if it cannot fit by itself
-       (alone > limit), and then a drop has been reported (tracer DropRPC);
-     * the queued publish lists, concatenated, are exactly the input's messages
-       that fit by themselves, in order.                                     *)
-AloneAt(alone, k, p) ==
-    IF k = "ihave" THEN alone.ihave[p[2]].ids[p[3]] ELSE Val(<<alone>>, k, p)
+     * only what cannot be sent is dropped: a reported RPC is either ONE
+       indivisible element larger than the limit, or the peer's queue is full;
+     * the messages queued, and the messages reported dropped, each follow the
+       order of the input;
+     * the DROP_RPC event says the same as the RPC given to the raw tracer;
+     * retry: what the unchanged code does is keep, in gs.control[peer], the
+       GRAFT and PRUNE of the LAST dropped RPC that carried any (they are
+       reported as dropped AND piggybacked onto a later RPC; gossip ids are
+       never retried).  Judged here: every GRAFT/PRUNE kept for a retry is one
+       that was reported dropped in this call - a retry of something that was
+       queued would send it twice.                                            *)
+FlatPub(rs) ==
+    LET idx == SelectSeq([i \in DOMAIN rs |-> i], LAMBDA i : Len(rs[i].pub) > 0)
+        cat[n \in 0..Len(idx)] == IF n = 0 THEN <<>> ELSE cat[n - 1] \o rs[idx[n]].pub
+    IN cat[Len(idx)]
 
-SendVerdict(rpc, alone, limit, queued, qsizes, drops) ==
-    LET c == [k \in KindSet |-> Cmp(rpc, queued, k)]
-        \* positions of input items that are missing from the queue although they fit by themselves
-        Wrong(k) ==
-            LET PI == Pos(<<rpc>>, k)   PO == Pos(queued, k)
-                SO == {Val(queued, k, p) : p \in PO}
-            IN {p \in PI : /\ AloneAt(alone, k, p) <= limit
-                           /\ LET x == Val(<<rpc>>, k, p) IN
-                              \/ x \notin SO
-                              \/ Cardinality({q \in PI : Val(<<rpc>>, k, q) = x /\ AloneAt(alone, k, q) <= limit})
-                                   > Cardinality({q \in PO : Val(queued, k, q) = x})}
-        wrong == [k \in KindSet |-> IF c[k].lost THEN Wrong(k) ELSE {}]
-        idx  == SelectSeq([i \in DOMAIN rpc.pub |-> i], LAMBDA i : alone.pub[i] <= limit)
-        fits == [rpc EXCEPT !.pub = [n \in DOMAIN idx |-> rpc.pub[idx[n]]]]
-    IN [anylost    |-> {k \in KindSet : c[k].lost},           \* missing from the queue, rightly or wrongly
-        lost       |-> {k \in KindSet : wrong[k] # {}},
-        lostpub    |-> {Val(<<rpc>>, "pub", p) : p \in wrong["pub"]},
-        extra      |-> {k \in KindSet : c[k].extra},
-        puborder   |-> PubInOrder(fits, queued),
-        empty      |-> {i \in DOMAIN queued : IsEmpty(queued[i])},
-        over       |-> {i \in DOMAIN queued : qsizes[i] > limit},
-        unreported |-> (\E k \in KindSet : c[k].lost) /\ drops = 0]
+\* s is a subsequence of t (greedy matching)
+SubSeqOf(s, t) ==
+    LET m[i \in 0..Len(s)] ==
+            IF i = 0 THEN 0
+            ELSE LET prev == m[i - 1]
+                     cand == {j \in (prev + 1)..Len(t) : t[j] = s[i]}
+                 IN IF cand = {} THEN Len(t) + 1 ELSE CHOOSE j \in cand : \A j2 \in cand : j <= j2
+    IN m[Len(s)] <= Len(t)
 
-SendHolds(v) == v.lost = {} /\ v.extra = {} /\ v.puborder /\ v.empty = {} /\ v.over = {} /\ ~v.unreported
+GossipKinds == {"ihave", "iwant", "idontwant"}
+
+SendVerdict(rpc, limit, queued, qsizes, rep, dsizes, evt, retry, cap) ==
+    LET all  == queued \o rep
+        c    == [k \in KindSet |-> CmpL(<<rpc>>, all, k)]
+        full == cap >= 0 /\ Len(queued) >= cap
+        evtOK(i) == /\ \A k \in GossipKinds : LET x == CmpL(<<rep[i]>>, <<evt[i]>>, k) IN ~x.lost /\ ~x.extra
+                    /\ evt[i].n = <<Len(rep[i].pub), Len(rep[i].subs), Len(rep[i].graft), Len(rep[i].prune)>>
+    IN [lost     |-> {k \in KindSet : c[k].lost},          \* neither queued nor reported: dropped silently
+        extra    |-> {k \in KindSet : c[k].extra},
+        puborder |-> SubSeqOf(FlatPub(queued), rpc.pub) /\ SubSeqOf(FlatPub(rep), rpc.pub),
+        empty    |-> {i \in DOMAIN queued : IsEmpty(queued[i])},
+        over     |-> {i \in DOMAIN queued : qsizes[i] > limit},
+        baddrop  |-> {i \in DOMAIN rep : ~((dsizes[i] > limit /\ Indivisible(rep[i])) \/ full)},
+        evtbad   |-> IF Len(evt) # Len(rep) THEN {0} ELSE {i \in DOMAIN rep : ~evtOK(i)},
+        retrybad |-> {k \in {"graft", "prune"} : CmpL(rep, <<retry>>, k).extra}]
+
+SendHolds(v) == /\ v.lost = {} /\ v.extra = {} /\ v.puborder /\ v.empty = {} /\ v.over = {}
+                /\ v.baddrop = {} /\ v.evtbad = {} /\ v.retrybad = {}
 =============================================================================
